@@ -10,7 +10,8 @@ def sh(cmd, cwd=None, timeout=1800):
     return p.returncode, (p.stdout + p.stderr)
 def main():
     prop, src, n, needs = sys.argv[1], sys.argv[2], sys.argv[3], sys.argv[4]
-    out = os.path.join(V, "seeded", "%s-%s" % (prop, n)); os.makedirs(out, exist_ok=True)
+    as_n = sys.argv[5] if len(sys.argv) > 5 else n    # optional 5th argument: number under which it is stored (later rounds)
+    out = os.path.join(V, "seeded", "%s-%s" % (prop, as_n)); os.makedirs(out, exist_ok=True)
     shutil.copy(os.path.join(src, "change%s.diff" % n), os.path.join(out, "patch.diff"))
     demo = [f for f in os.listdir(src) if re.fullmatch(r"demo%s\.(c|sh|py)" % n, f)]
     for f in demo: shutil.copy(os.path.join(src, f), os.path.join(out, f))
